@@ -897,10 +897,32 @@ def run_export(ctx, fmt, idx, tmp):
         feats = [f for f in EXPORT_FEATURES if rng.random() < 0.45]
         divs = rng.choice([1, 2, 4, 4, 6, 8, 12, 16, 24, 480])
         part, meta = gen_score.make_part(rng, "P1", features=feats, divs=divs, n_measures=rng.randint(1, 4))
+        cross = 0
+        if meta["staves"] > 1 and rng.random() < 0.5:
+            # cross-staff writing: a member of a chord, or a single note, of a voice stands on the other staff
+            import partitura.score as S_
+            groups = collections.defaultdict(list)
+            for n in part.iter_all(S_.Note):
+                if not isinstance(n, S_.GraceNote) and n.tie_prev is None and n.tie_next is None:
+                    groups[(n.start.t, n.end.t, n.voice)].append(n)
+            cands = [g for g in groups.values() if len(g) >= 2] if rng.random() < 0.7 else [g for g in groups.values() if len(g) == 1]
+            rng.shuffle(cands)
+            # (a target staff whose number equals the voice number is a boundary of its own: element numbers coincide)
+            cands.sort(key=lambda g: not (g[0].voice != (g[0].staff or 1) and g[0].voice <= meta["staves"] and rng.random() < 0.7))
+            for g in cands[:rng.randint(1, 4)]:
+                n = rng.choice(g)
+                others = [st for st in range(1, meta["staves"] + 1) if st != (n.staff or 1)]
+                n.staff = n.voice if n.voice in others and rng.random() < 0.7 else rng.choice(others)
+                cross += 1
+                if n.staff == n.voice:
+                    ctx.extra[f"export_{fmt}_cross_staff_note_on_staff_numbered_like_its_voice"] += 1
         path = os.path.join(tmp, f"x{idx}_{j}" + (".mei" if fmt == "mei" else ".krn"))
         small = {k: meta[k] for k in ("divs", "ts", "notes", "rests", "ties", "graces", "tuplets", "chords", "voices", "staves",
                                       "pickup", "features")}
         small["seed_path"] = ["export", fmt, idx, j]
+        small["cross_staff_notes"] = cross
+        if cross:
+            ctx.extra[f"export_{fmt}_parts_with_cross_staff_notes"] += 1
         EXPECT[os.path.abspath(path)] = {"meta": small}
         try:
             ok, _ = ctx.try_call(EM.save_mei if fmt == "mei" else EK.save_kern, part, path)
